@@ -26,6 +26,7 @@ META = {
 META["decides"] += ' (As built: R-2 re-checks the header encoder table, which is what a built protected header contributes; see C03 - decided per public entry point on the all-inlined view.)'
 META["decides"] += ' R-2 also: map form of ProtectedHeader, un-overridden byte-level API; R-3 also: derived Clone, arguments not edited in place.'
 
+META["decides"] += " R-5 also: retained wire bytes exist only in decoded headers - every construction of ProtectedHeader is the wire constructor, a derived Clone / Default or stores None, the builder setters discard retained bytes, nobody else writes original_data (C02 R-1's recogniser)."
 
 def check(ctx):
     S.check_context_strings(ctx, "R-1", SFN)
